@@ -393,8 +393,13 @@ def proxy_proof_gate(
     if config.mode == "off":
         raise ValueError("proxy_proof_gate called with mode='off'; install no gate instead")
 
+    # A proof passes the timestamp check for every whole second of
+    # [ts - skew, ts + skew] — 2 * skew + 1 seconds, not skew: one dated
+    # ahead of this worker's clock is first accepted at ts - skew and keeps
+    # verifying until ts + skew. Remember nonces for that whole span, or the
+    # second half of the window is replayable.
     cache = (
-        NonceCache(ttl_seconds=config.skew_seconds, capacity=config.replay_capacity)
+        NonceCache(ttl_seconds=2 * config.skew_seconds + 1, capacity=config.replay_capacity)
         if config.enable_replay_cache
         else None
     )
